@@ -182,6 +182,22 @@ pub fn text_strategy() -> BoxedStrategy<Text> {
             v.to_string()
         }),
         1 => (0usize..4, digits(8)).prop_map(|(z, d)| format!("{}{}", "0".repeat(z), d)),
+        // zero-padded whole parts whose LENGTH sits around the digit counts a parser may reason with
+        // (60 = digits of MAX / 10^18, 78 = digits of MAX, and the widths of integer types): leading
+        // zeros do not change what a decimal string denotes
+        1 => (
+            prop_oneof![Just(60usize), Just(77), Just(78), Just(79), Just(96), Just(128), Just(256), Just(65536)],
+            -2i32..=3,
+            prop_oneof![
+                2 => digits(8),
+                1 => (0u64..1500).prop_map(|k| (max() / e18() - k).to_string()),
+                1 => (1u64..4).prop_map(|k| (max() / e18() + k).to_string()),
+            ],
+        )
+            .prop_map(|(w, j, d)| {
+                let total = (w as i64 + j as i64).max(1) as usize;
+                format!("{}{}", "0".repeat(total.saturating_sub(d.len())), d)
+            }),
     ];
     let fracs = prop_oneof![
         2 => Just(None),
